@@ -961,7 +961,7 @@ def run(ctx):
     ctx.add("states", r.distinct)
     ctx.add("transitions", r.generated)
     ctx.add("tlc_runs")
-    ctx.cov["exhaustive"] = {"cfg": "Config_small.cfg" if ctx.quick else "Config_mid.cfg", "distinct": r.distinct, "generated": r.generated, "depth": r.depth}
+    ctx.cov["exhaustive_tlc"] = {"cfg": "Config_small.cfg" if ctx.quick else "Config_mid.cfg", "distinct": r.distinct, "generated": r.generated, "depth": r.depth}
     if not ctx.quick:
         ctx.cov["coverage_zero"] = [z for z in r.coverage_zero() if "Config.tla" in z or "module Config" in z][:20]
     check_table(ctx, r.workdir)
